@@ -287,6 +287,21 @@ func (x *c03Env) ruleI() {
 	flags := map[*types.Var]bool{}
 	funcs := c.P.FuncsIn("vaxis")
 
+	// reply channels: Vaxis channel fields the input context sends on
+	replyCh := map[*types.Var]bool{}
+	for _, f := range x.reach {
+		if f.pk != x.pk {
+			continue
+		}
+		x.inspectSync(f.body, func(n ast.Node) bool {
+			if s, ok := n.(*ast.SendStmt); ok {
+				if ch := x.vaxisField(s.Chan); ch != nil {
+					replyCh[ch] = true
+				}
+			}
+			return true
+		})
+	}
 	// requester side discovery
 	for _, fi := range funcs {
 		if fi.Decl.Body == nil {
@@ -297,7 +312,7 @@ func (x *c03Env) ruleI() {
 		ast.Inspect(fi.Decl.Body, func(n ast.Node) bool {
 			if u, ok := n.(*ast.UnaryExpr); ok && u.Op == token.ARROW {
 				if f := x.vaxisField(u.X); f != nil {
-					if _, isChan := f.Type().Underlying().(*types.Chan); isChan {
+					if _, isChan := f.Type().Underlying().(*types.Chan); isChan && replyCh[f] {
 						dup := false
 						for _, o := range chans {
 							dup = dup || o == f
